@@ -68,7 +68,11 @@ def s_suite():
     return st.sampled_from(SUITES)
 
 
+# the last ones have more than 4300 decimal digits: CPython refuses to convert them to a decimal string, so an
+# error message that formats the key raises ValueError before the ValidationError exists
 BAD_SKS = [0, R, R + 1, -1, -R, 1 << 255, 1 << 256, 2 * R, -(1 << 255)]
+# (named, because neither JSON nor repr() can carry them)
+HUGE_BAD_SKS = {"2**16384": 1 << 16384, "-(10**5000)": -(10 ** 5000), "r<<20000": R << 20000, "2**14000": 1 << 14000}
 class _Indexable:
     """Not an int, but usable as one through __index__ (key handles, numpy-like scalars)."""
     def __init__(self, v):
